@@ -299,6 +299,27 @@ Proof.
 Qed.
 
 (* ---------- Nice(o) (linear.go:152-173, repaired) ---------- *)
+(* the IDEAL Nice: the model's Nice (Model.Ticks.lin_nice_gen) without the test that the new end
+   is a finite float64.  The theory of Proofs/TicksNice.v is developed for it; the model's Nice
+   coincides with it whenever the two candidate ends are representable (lin_nice_rep_eq). *)
+Definition lin_nice_ideal_gen (C : Z -> Z -> Q -> Q -> bool -> Z -> Z)
+    (base : Z) (mn mx : Q) (o : tickopts) (guess : Z) : nice_res :=
+  let '(mn, mx) := if Qeqb mn mx then (mn - (1 # 2), mx + (1 # 2))
+                   else if Qltb mx mn then (mx, mn) else (mn, mx) in
+  match lin_ebase base with
+  | None => NR_panic
+  | Some eb =>
+      match find_level o (C base eb mn mx true) guess with
+      | FL_ok l =>
+          let sp := lin_spacing base eb l in
+          let '(f, la) := lin_first_last mn mx sp true in
+          let nmn := inject_Z f * sp in let nmx := inject_Z la * sp in
+          NR_dom (if Qleb nmn mn then nmn else mn) (if Qleb mx nmx then nmx else mx)
+      | _ => NR_dom mn mx
+      end
+  end.
+Definition lin_nice_ideal := lin_nice_ideal_gen lin_count.
+
 (* the domain Nice starts from: a degenerate one is widened by 1/2 on each side, a reversed one
    swapped *)
 Definition nice_start (mn mx : Q) : Q * Q :=
@@ -306,11 +327,11 @@ Definition nice_start (mn mx : Q) : Q * Q :=
 
 (* Nice never shrinks the domain, for any options (Max >= 1 or not, level limits or not):
    when no level fits the domain is left as it is *)
-Lemma lin_nice_expands base mn mx o guess a b :
-  lin_nice base mn mx o guess = NR_dom a b ->
+Lemma lin_nice_ideal_expands base mn mx o guess a b :
+  lin_nice_ideal base mn mx o guess = NR_dom a b ->
   let '(smn, smx) := nice_start mn mx in a <= smn /\ smx <= b.
 Proof.
-  unfold lin_nice, lin_nice_gen, nice_start.
+  unfold lin_nice_ideal, lin_nice_ideal_gen, nice_start.
   destruct (if Qeqb mn mx then (mn - (1 # 2), mx + (1 # 2)) else if Qltb mx mn then (mx, mn) else (mn, mx)) as [smn smx].
   destruct (lin_ebase base) as [eb|]; [|discriminate].
   destruct (find_level o (lin_count base eb smn smx true) guess) as [l| |].
@@ -329,9 +350,9 @@ Proof. unfold nice_start. destruct (Qeqb mn mx) eqn:E; [gb_bool; lra|].
   destruct (Qltb mx mn) eqn:S; gb_bool; [exact S|].
   destruct (Qeq_dec mn mx); [contradiction | lra]. Qed.
 
-Lemma lin_nice_adds_less_than_one_spacing base eb mn mx o guess a b :
+Lemma lin_nice_ideal_adds_less_than_one_spacing base eb mn mx o guess a b :
   lin_ebase base = Some eb ->
-  lin_nice base mn mx o guess = NR_dom a b ->
+  lin_nice_ideal base mn mx o guess = NR_dom a b ->
   let '(smn, smx) := nice_start mn mx in
   (a == smn /\ b == smx) \/
   exists l, find_level o (lin_count base eb smn smx true) guess = FL_ok l /\
@@ -339,7 +360,7 @@ Lemma lin_nice_adds_less_than_one_spacing base eb mn mx o guess a b :
     smn - a < sp /\ b - smx < sp /\
     (a == smn \/ exists k : Z, a = inject_Z k * sp) /\ (b == smx \/ exists k : Z, b = inject_Z k * sp).
 Proof.
-  intros He. pose proof (nice_start_ordered mn mx) as Ord. unfold lin_nice, lin_nice_gen.
+  intros He. pose proof (nice_start_ordered mn mx) as Ord. unfold lin_nice_ideal, lin_nice_ideal_gen.
   change (if Qeqb mn mx then (mn - (1 # 2), mx + (1 # 2)) else if Qltb mx mn then (mx, mn) else (mn, mx)) with (nice_start mn mx).
   destruct (nice_start mn mx) as [smn smx].
   rewrite He.
